@@ -5,6 +5,9 @@ TLC design level : PluginRegistry.tla — Registry.New / NewFactory + the plugin
                    product's config in between; the USER'S MAP is state), checked for the complete space of
                    constructor shapes x requested forms x injected failures x nested plugin x map shape;
                    four negative controls must produce counterexamples.
+Overlapping calls : PluginRegistryConc.tla (decode / construct steps of concurrent calls of one factory, all interleavings; negative
+                   control: the config variable shared by the calls); the factory cases run by 4 goroutines in a -race build,
+                   TracePluginRegistryConc.tla checks own-config / one-config per call and that no data race was reported.
 M2 (spec->code)  : TLC writes the complete case space; `vdrive plugreg` executes every case on the real registry
                    (constructors of each shape made with reflect) and records what happened;
                    TracePluginRegistry.tla loads each observed run into the model's variables, evaluates the
@@ -51,12 +54,32 @@ def case_sig(c):
 
 
 def validate(v, obs_path, rows, workers=8):
-    tr = vlib.tlc("TracePluginRegistry", "TracePluginRegistry.cfg", env={"VERIF_TRACE": obs_path}, cont=True,
+    # pass 1 stops at the first rejected line (the normal, green case visits every line once)
+    tr = vlib.tlc("TracePluginRegistry", "TracePluginRegistry.cfg", env={"VERIF_TRACE": obs_path},
                   workers=workers, heap="4g", deadlock=False, timeout=1500)
     if tr.error:
         raise vlib.MachineryError("TracePluginRegistry failed: %s\n%s" % (tr.kind, tr.out[-3000:]))
-    if tr.distinct != len(rows) + 1:
+    if not tr.violation and tr.distinct != len(rows) + 1:
         raise vlib.MachineryError("TracePluginRegistry visited %d states for %d lines" % (tr.distinct, len(rows)))
+    if not tr.violation:
+        return tr
+    # pass 2 (only when something is rejected): every violated invariant of a bounded sample of the lines - a regression
+    # typically breaks thousands of cases, and TLC's report of all of them is slow and adds nothing to the verdict
+    try:
+        first = int(tr.trace_state.get("l", "0"))
+    except ValueError:
+        first = 0
+    step = max(1, len(rows) // 600)
+    idx = sorted(set(range(0, len(rows), step)) | ({first - 1} if 1 <= first <= len(rows) else set()))
+    all_rows, rows = rows, [rows[i] for i in idx]
+    sample = obs_path + ".sample"
+    vlib.write_ndjson(sample, rows)
+    tr2 = vlib.tlc("TracePluginRegistry", "TracePluginRegistry.cfg", env={"VERIF_TRACE": sample}, cont=True,
+                   workers=workers, heap="4g", deadlock=False, timeout=1500)
+    if tr2.error or not tr2.all_violations:
+        raise vlib.MachineryError("TracePluginRegistry: pass 2 does not reproduce the rejection of line %d\n%s" % (first, tr2.out[-2000:]))
+    tr2.distinct = len(all_rows) + 1
+    tr = tr2
     seen = {}
     for inv, st in tr.all_violations:
         try:
@@ -74,6 +97,67 @@ def validate(v, obs_path, rows, workers=8):
             json.dumps(row["c"], sort_keys=True), json.dumps(row["obs"], sort_keys=True), inv),
             replay_obj={"invariant": inv, "line": row}, replay_name="plugreg_%d_%s.json" % (ln, inv))
     return tr
+
+
+def overlapping(v, cases, d, thorough):
+    """Overlapping calls of one factory (core/engine calls NewGun / NewRPSSchedule from many goroutines):
+    PluginRegistryConc.tla exhaustively (all interleavings, 3 callers x 2 calls) + negative control; the eligible TLC cases
+    executed by G goroutines on the real registry in a race-detector build; TracePluginRegistryConc.tla decides."""
+    out = {"states": 0, "transitions": 0}
+    for cfg in ("PluginRegistryConc_exh_comp.cfg", "PluginRegistryConc_exh_fact.cfg"):
+        r = vlib.tlc("PluginRegistryConc", cfg, workers=4, heap="2g", deadlock=False, timeout=600)
+        vlib.tlc_must_pass(r, cfg)
+        out["states"] += r.distinct
+        out["transitions"] += r.generated
+    vlib.tlc_must_fail(vlib.tlc("PluginRegistryConc", "PluginRegistryConc_neg_sharedvar.cfg", workers=2, heap="2g", deadlock=False,
+                                timeout=600), "PluginRegistryConc_neg_sharedvar")
+    rb = vlib.harness_build(race=True)
+    obs = os.path.join(d, "conc.ndjson")
+    g, rounds = (8, 200) if thorough else (4, 60)
+    p = vlib.run_driver(rb, ["plugreg", "-mode", "conc", "-in", cases, "-out", obs, "-goroutines", str(g), "-rounds", str(rounds)],
+                        timeout=1500, env={"GORACE": "halt_on_error=0 exitcode=0"})
+    rows = vlib.read_ndjson(obs)
+    if len(rows) < 50:
+        raise vlib.MachineryError("only %d overlapping-call cases ran" % len(rows))
+    reports = p.stderr.split("WARNING: DATA RACE")[1:]
+    first = ""
+    if reports:
+        first = " | ".join(ln.strip() for ln in reports[0].splitlines() if ln.strip() and ("()" in ln or ".go:" in ln))[:900]
+    rows.append({"kind": "race", "n": len(reports), "first": first})
+    vlib.write_ndjson(obs, rows)
+    tr = vlib.tlc("TracePluginRegistryConc", "TracePluginRegistryConc.cfg", env={"VERIF_TRACE": obs}, cont=True, workers=1, heap="4g",
+                  deadlock=False, timeout=1500)
+    if tr.error:
+        raise vlib.MachineryError("TracePluginRegistryConc failed: %s\n%s" % (tr.kind, tr.out[-3000:]))
+    if tr.distinct != len(rows) + 1:
+        raise vlib.MachineryError("TracePluginRegistryConc visited %d states for %d lines" % (tr.distinct, len(rows)))
+    seen = set()
+    for inv, st in tr.all_violations:
+        try:
+            ln = int(st.get("l", "0"))
+        except ValueError:
+            continue
+        if not 1 <= ln <= len(rows):
+            continue
+        row = rows[ln - 1]
+        if row["kind"] == "race":
+            sig = "overlapping-calls inv=NoRace"
+            what = ("the race detector reports %d data race(s) between overlapping calls of one factory (state shared between calls); "
+                    "first: %s" % (row["n"], row["first"]))
+            robj = row
+        else:
+            c = row["c"]
+            wrong = [x for x in row["calls"] if x["got"] != x["dec"]][:5]
+            sig = "overlapping-calls ret=%s cfg=%s dflt=%d form=%s inv=%s" % (c["ret"], c["cfg"], int(c["dflt"]), c["form"], inv)
+            what = ("overlapping calls of one factory on case %s: %d calls, %d failed, calls whose product holds another call's config: %s "
+                    "(invariant %s of TracePluginRegistryConc)" % (json.dumps(c, sort_keys=True), len(row["calls"]), row["bad"], wrong, inv))
+            robj = {"kind": "conc", "invariant": inv, "line": {"c": c, "bad": row["bad"], "calls_sample": wrong}}
+        if sig in seen:
+            continue
+        seen.add(sig)
+        v.violation(sig, what, replay_obj=robj, replay_name="conc_%d_%s.json" % (ln, inv))
+    out.update(cases=len(rows) - 1, calls=sum(len(r_["calls"]) for r_ in rows[:-1]), races_reported=len(reports), goroutines=g, rounds=rounds)
+    return out
 
 
 def run(tier, v):
@@ -103,6 +187,9 @@ def run(tier, v):
     if len(rows) != len(gen) or any(r_["c"] != g_ for r_, g_ in zip(rows, gen)):
         raise vlib.MachineryError("driver answered %d of %d cases / cases altered" % (len(rows), len(gen)))
     tr = validate(v, obs, rows)
+    conc = overlapping(v, cases, d, thorough)
+    states += conc["states"]
+    trans += conc["transitions"]
     nontrivial = len({json.dumps(r_["obs"], sort_keys=True) + case_sig(r_["c"]) for r_ in rows})
     real = [r_ for r_ in rows if r_["c"]["reg"] == "real"]
     samples = [{"case": r_["c"], "observed": r_["obs"]} for r_ in (rows[7::1733][:4] + real[-2:])]
@@ -114,6 +201,7 @@ def run(tier, v):
         "rule": "every valid combination of constructor shape x requested form x injected failure/position x calls 1..MaxCalls x nested plugin x "
                 "map shape x mutation (as defined by Valid in PluginRegistry.tla) is one case; distinct = distinct (case class, observable)",
         "real_registry_cases": len(real),
+        "overlapping_calls": {k: conc[k] for k in ("cases", "calls", "races_reported", "goroutines", "rounds")},
         "trace_spec_states": tr.distinct,
         "negative_controls": [n[len("PluginRegistry_neg_"):-4] for n in NEGS],
         "invariants_on_observed_runs": INVS,
@@ -127,6 +215,13 @@ def run(tier, v):
 def replay(path, v):
     obj = json.load(open(path))
     d = vlib.scratch()
+    if obj.get("kind") in ("conc", "race"):
+        cases = os.path.join(d, "cases.ndjson")
+        g = vlib.tlc("PluginRegistryMC", "PluginRegistry_gen.cfg", workers=1, heap="2g", deadlock=False, timeout=600, env={"VERIF_OUT": cases})
+        if g.error or not os.path.exists(cases):
+            raise vlib.MachineryError("case generation failed")
+        overlapping(v, cases, d, False)
+        return None
     cases = os.path.join(d, "cases.ndjson")
     vlib.write_ndjson(cases, [obj["line"]["c"]])
     b = vlib.harness_build()
